@@ -52,6 +52,14 @@ _m = {}
 _dir = [None]
 
 
+
+def _workdir():
+    """one directory per worker process: SQLite creates and deletes journal files all the time, and sixteen workers doing that in one
+    tmpfs directory serialise on it"""
+    d = os.path.join(_dir[0], "p%d" % os.getpid())
+    os.makedirs(d, exist_ok=True)
+    return d
+
 def setup():
     from sqlalchemy import create_engine, text, exc, event, select, Column, Integer, String
     from sqlalchemy.ext.asyncio import create_async_engine, AsyncSession
@@ -402,7 +410,7 @@ def run_case(case):
         if not any(v["oracle"] == oracle for v in viol):
             viol.append({"oracle": oracle, "sig": sig, "detail": detail})
 
-    apath = os.path.join(_dir[0], "a%d.db" % os.getpid())
+    apath = os.path.join(_workdir(), "a.db")
     _mkdb(apath)
     rng = random.Random(case["lat_seed"])
     sim = LS.DriverSim(rng)
@@ -555,7 +563,7 @@ def run_case(case):
 
             loop.run_until_complete(main())
         if case["kind"] == "equiv":
-            spath = os.path.join(_dir[0], "s%d.db" % os.getpid())
+            spath = os.path.join(_workdir(), "s.db")
             _mkdb(spath)
             seng = create_engine("sqlite:///" + spath, poolclass=_m["QP"], pool_size=case["pool_size"], max_overflow=0,
                                  connect_args={"isolation_level": None})
